@@ -20,9 +20,9 @@ import (
 
 func init() {
 	ev.Register(&ev.Check{
-		ID:    "C13",
-		Level: "exploration",
-		Rule: "schemas: accepted AND rejected canonical cases (34 rule slots x 13 contexts incl. corruptions, C03 construct families, C08 rule sets of <= 2 rules on 10 node kinds) x the FULL product of spelling dimensions: line end {LF,CRLF,CR} x indentation {none,2 spaces,tab} x user comments {none,# at line ends,### blocks} x annotation form {inline, /* */ one line, /* */ three lines} x rule names {bare,quoted} x trailing comma {no,yes} (324 spellings) + note variants + all rule permutations (<= 3 rules): Check verdict, AST (comments blanked) and the verdict of every probe document must equal the canonical spelling's. documents: each probe x {compact, spaced, newline-heavy, CRLF} x all property permutations (<= 3 keys) x string spellings {plain, \\uXXXX for every char, \\/}: verdict equal under every schema. Entirely reference-free (metamorphic). Non-trivial = distinct (schema, spelling) or (schema, document spelling).",
+		ID:             "C13",
+		Level:          "exploration",
+		Rule:           "schemas: accepted AND rejected canonical cases (34 rule slots x 13 contexts incl. corruptions, C03 construct families, C08 rule sets of <= 2 rules on 10 node kinds) x the FULL product of spelling dimensions: line end {LF,CRLF,CR} x indentation {none,2 spaces,tab} x user comments {none,# at line ends,### blocks} x annotation form {inline, /* */ one line, /* */ three lines} x rule names {bare,quoted} x trailing comma {no,yes} (324 spellings) + note variants + all rule permutations (<= 3 rules): Check verdict, AST (comments blanked) and the verdict of every probe document must equal the canonical spelling's. documents: each probe x {compact, spaced, newline-heavy, CRLF} x all property permutations (<= 3 keys) x string spellings {plain, \\uXXXX for every char, \\/}: verdict equal under every schema. Entirely reference-free (metamorphic). Non-trivial = distinct (schema, spelling) or (schema, document spelling).",
 		Run:            run,
 		Replay:         replay,
 		QuickBudget:    85 * time.Second,
